@@ -53,6 +53,7 @@ def main():
     ap.add_argument("--out", required=True)
     ap.add_argument("--repo", default="/repo")
     ap.add_argument("--only-props", default="")
+    ap.add_argument("--ids", default="", help="comma separated mutant ids (default: all)")
     ap.add_argument("files", nargs="+")
     a = ap.parse_args()
     done = set()
@@ -69,7 +70,7 @@ def main():
             lst = subprocess.run([ROOT + "/bin/mutate", "-file", src, "-list"], stdout=subprocess.PIPE, text=True, check=True).stdout.strip().split("\n")
             for row in lst:
                 mid, line, desc = row.split("\t"); mid = int(mid)
-                if (f, mid) in done:
+                if (f, mid) in done or (a.ids and str(mid) not in a.ids.split(",")):
                     continue
                 t0 = time.time()
                 rec = dict(file=f, id=mid, line=int(line), desc=desc, base=head, props=props)
